@@ -330,6 +330,12 @@ func ReadFromWebVTT(i io.Reader) (o *Subtitles, err error) {
 			}
 		}
 	}
+
+	// Scanning stopped on an error (failing reader or line too long)
+	if err = scanner.Err(); err != nil {
+		err = fmt.Errorf("astisub: scanning failed: %w", err)
+		return
+	}
 	return
 }
 
